@@ -66,6 +66,24 @@ CHECKS = {
         "bound_text": "expression families: trees with <= budget operator/wrapper nodes (quick 1, thorough 2) over 13 non-operator positions, operator-in-position-in-operator sandwiches, operator chains (quick 2, thorough 3), e-op-e, if/else; 16 statement embeddings (quick: all 16 for small trees, used/discarded/function-tail for the other families); operators: one representative per VM dispatch group; operand kinds nil/int/float/bool symbolic, strings/arrays of length <= 2",
         "assumptions": ["generated trees are exactly trees the parser can produce (statement forms only in statement positions)"],
     },
+    "C06": {
+        "runs": [
+            {"harness": ["internal/vsess.VerifC06Text"], "pkgs": ["./internal/vsess"], "fuel": 30000000,
+             "params_quick": {"n": 3}, "params_thorough": {"n": 4},
+             "covers": {"VerifC06Text": ["accepted", "rejected"]}},
+            {"harness": ["internal/vsess.VerifC06Tokens"], "pkgs": ["./internal/vsess"], "fuel": 30000000,
+             "params_quick": {"maxtokens": 3, "vocab": 20, "session": 0}, "params_thorough": {"maxtokens": 3, "vocab": 32, "session": 0},
+             "covers": {"VerifC06Tokens": ["accepted", "rejected"]}},
+            {"harness": ["internal/vsess.VerifC06Tokens"], "pkgs": ["./internal/vsess"], "fuel": 30000000,
+             "params": {"maxtokens": 2, "vocab": 32, "session": 1},
+             "covers": {"VerifC06Tokens": ["accepted", "rejected"]}},
+            {"harness": ["internal/vsess.VerifC06Literals", "internal/vsess.VerifC06Nesting"], "pkgs": ["./internal/vsess"], "fuel": 60000000,
+             "params_quick": {"maxnest": 24}, "params_thorough": {"maxnest": 40},
+             "covers": {"VerifC06Literals": ["accepted", "rejected"], "VerifC06Nesting": ["accepted", "rejected"]}},
+        ],
+        "bound_text": "all ASCII texts of n bytes (quick 3, thorough 4); all sequences of <= 3 tokens over a 20 (thorough 32) word vocabulary of the grammar, with and without blanks, and of <= 2 tokens fed through processInput into a live session; number literals of 1, 2, 18, 19, 20, 25 digits (symbolic head and tail digits); bracket/call/index nesting up to depth 24 (thorough 40), balanced, one closer short, one too many",
+        "assumptions": ["texts longer than the bounds only through the token, literal and nesting families", "nesting deep enough to exhaust the Go stack is outside the claim"],
+    },
     "C08": {
         "runs": [
             {"harness": ["internal/vsess.VerifC08Session"], "pkgs": ["./internal/vsess"], "fuel": 8000000,
@@ -183,6 +201,7 @@ CHECKS = {
 }
 
 LEVEL_TEXT = {
+    "C06": "Lexer, transactional lexer, all combinators, the grammar, the token wrapper, reportError and processInput are executed symbolically. For short texts every byte is a solver variable; longer inputs are reached through token sequences, literals with symbolic digits and nesting families. Any feasible Go panic, fuel exhaustion (non-termination, confirmed by native timeout), error span outside the input or compilation of a rejected text is a violation.",
     "C17": "The built-ins are reached through the real pipeline with arguments of symbolic kind and payload; toa against captured write output, aton/toa round trip, fromto/elems/indices against explicit expectations and the reference evaluator, and successive read() calls against a stdin model whose chunk sizes are solver variables. Float round trip is outside the encoding and only sampled.",
     "C10": "Operation sequences over variables that share structure are executed symbolically (indices and element values symbolic) next to the reference evaluator, which never shares storage; after each operation every variable is rendered on both sides. The engine models Go slices with their real capacity growth, so whether an append writes into an operand's spare capacity is decided as in the native build.",
     "C08": "Sessions are executed symbolically statement by statement next to the reference evaluator; whether and how the injected statement fails is decided by a solver variable (operand kind and value), so failing and non-failing runs of every placement are both explored; after the failure the machine state is read through accessors and every later statement must equal the reference in value, output and error.",
